@@ -67,3 +67,107 @@ Proof.
   unfold do_ack. intros H. repeat (split_hyp H); inv_tuple H; cbn [wake_key option_map w_key].
   all: ms.
 Qed.
+
+(* Lock: relative to the state after GetOrNewLockManager *)
+Lemma do_lock_rule_bound b cc rc : do_lock_rule b cc rc = true -> b < 2147483647.
+Proof. intros H. apply do_lock_rule_meaning in H. lia. Qed.
+
+Lemma add_lock_locked d k r m :
+  aget (mgrs (add_lock d k r)) k = Some m -> m_locked m = m_locked (getm d k).
+Proof.
+  intros H.
+  assert (Hs : msub None eq_locked d (add_lock d k r)) by ms.
+  destruct (Hs k m) as (m0 & H0 & Hle); [discriminate|exact H|].
+  unfold getm. rewrite H0. exact Hle.
+Qed.
+
+(* the increment of `locked` at a grant does not wrap: doLock refuses from 0x7fffffff on *)
+Lemma grant_incr_ok A d k r m :
+  A && do_lock d k r = true -> aget (mgrs (add_lock d k r)) k = Some m ->
+  Lrel le_locked m (m <| m_locked := add32 (m_locked m) 1 |>).
+Proof.
+  intros HA Hm. apply andb_prop in HA. destruct HA as [_ Hd].
+  unfold do_lock in Hd. apply do_lock_rule_bound in Hd.
+  rewrite <- (add_lock_locked d k r m Hm) in Hd.
+  unfold Lrel, le_locked. cbn. unfold add32. lia.
+Qed.
+
+#[export] Hint Extern 2 (msub None le_locked _ (updm (add_lock _ _ _) _ _)) =>
+  (apply msub_updm_at; [auto with msdb | intros ? ?; eapply grant_incr_ok; eassumption | ]) : msdb.
+
+Lemma msub_get_or_new_back K le s k : lecond le -> msub K le (get_or_new_mgr s k) s.
+Proof.
+  intros HL k0 m' HK Hg. unfold get_or_new_mgr. destruct (aget (mgrs s) k) eqn:E.
+  - exists m'. split; auto. apply lx_refl; auto.
+  - exists m'. split; [|apply lx_refl; auto].
+    change (mgrs (bump (fun n => n <| n_key := (n_key n + 1)%Z |>) (setm s k new_mgr))) with (aset (mgrs s) k new_mgr).
+    rewrite aget_aset. destruct (k =? k0) eqn:E2; auto. apply N.eqb_eq in E2. congruence.
+Qed.
+
+Lemma lock_step_wake s conn c s' ev w :
+  lock_step s conn c = (s', ev, w) -> msub (wake_key w) le_locked (get_or_new_mgr s (c_key c)) s'.
+Proof.
+  unfold lock_step. intros H. cbv zeta in H.
+  change (match aget (mgrs s) (c_key c) with
+          | Some _ => s
+          | None => bump (fun n => n <| n_key := (n_key n + 1)%Z |>) (setm s (c_key c) new_mgr)
+          end) with (get_or_new_mgr s (c_key c)) in H.
+  set (sm := get_or_new_mgr s (c_key c)) in *.
+  repeat (split_hyp H). all: inv_tuple H.
+  all: repeat match goal with |- context [wake_key (if ?c then _ else _)] => destruct c end.
+  all: cbn [wake_key option_map w_key].
+  all: try solve [ms].
+  all: apply msub_get_or_new_back; ms.
+Qed.
+
+(* ------------------------------------------------------------------ pointwise reading *)
+Lemma msub_decrease_wake w s s' k m m' :
+  msub (wake_key w) le_locked s s' ->
+  aget (mgrs s) k = Some m -> aget (mgrs s') k = Some m' -> m_locked m' < m_locked m ->
+  exists wk, w = Some wk /\ w_key wk = k.
+Proof.
+  intros Hs Hm Hm' Hlt.
+  destruct w as [wk|]; cbn [wake_key option_map] in Hs.
+  - destruct (N.eq_dec (w_key wk) k) as [E|E]; [eauto|].
+    destruct (Hs k m') as (m0 & H0 & Hle); [congruence|exact Hm'|].
+    rewrite Hm in H0. inv H0. unfold Lrel, le_locked in Hle. lia.
+  - destruct (Hs k m') as (m0 & H0 & Hle); [discriminate|exact Hm'|].
+    rewrite Hm in H0. inv H0. unfold Lrel, le_locked in Hle. lia.
+Qed.
+
+Lemma get_or_new_mgr_keeps s k k0 m : aget (mgrs s) k0 = Some m -> aget (mgrs (get_or_new_mgr s k)) k0 = Some m.
+Proof.
+  intros H. unfold get_or_new_mgr. destruct (aget (mgrs s) k) eqn:E; auto.
+  change (mgrs (bump (fun n => n <| n_key := (n_key n + 1)%Z |>) (setm s k new_mgr))) with (aset (mgrs s) k new_mgr).
+  rewrite aget_aset. destruct (k =? k0) eqn:E2; auto. apply N.eqb_eq in E2. congruence.
+Qed.
+
+Definition decrease_needs_wake (s s' : db) (w : option wake) : Prop :=
+  forall k m m', aget (mgrs s) k = Some m -> aget (mgrs s') k = Some m' -> m_locked m' < m_locked m ->
+                 exists wk, w = Some wk /\ w_key wk = k.
+
+Lemma lock_step_decrease s conn c s' ev w : lock_step s conn c = (s', ev, w) -> decrease_needs_wake s s' w.
+Proof.
+  intros H k m m' Hm Hm' Hlt. apply lock_step_wake in H.
+  eapply msub_decrease_wake; eauto. apply get_or_new_mgr_keeps; auto.
+Qed.
+Lemma unlock_step_decrease s conn c s' ev w : unlock_step s conn c = (s', ev, w) -> decrease_needs_wake s s' w.
+Proof. intros H k m m' Hm Hm' Hlt. apply unlock_step_wake in H. eapply msub_decrease_wake; eauto. Qed.
+Lemma cancel_wait_lock_decrease s conn c s' ev w : cancel_wait_lock s conn c = (s', ev, w) -> decrease_needs_wake s s' w.
+Proof. intros H k m m' Hm Hm' Hlt. apply cancel_wait_lock_wake in H. eapply msub_decrease_wake; eauto. Qed.
+Lemma do_timeout_decrease s r s' ev w : do_timeout s r = (s', ev, w) -> decrease_needs_wake s s' w.
+Proof. intros H k m m' Hm Hm' Hlt. apply do_timeout_wake in H. eapply msub_decrease_wake; eauto. Qed.
+Lemma do_expried_decrease s r s' ev w : do_expried s r = (s', ev, w) -> decrease_needs_wake s s' w.
+Proof. intros H k m m' Hm Hm' Hlt. apply do_expried_wake in H. eapply msub_decrease_wake; eauto. Qed.
+Lemma do_ack_decrease s r ok s' ev w : do_ack s r ok = (s', ev, w) -> decrease_needs_wake s s' w.
+Proof. intros H k m m' Hm Hm' Hlt. apply do_ack_wake in H. eapply msub_decrease_wake; eauto. Qed.
+
+(* the key of the pass is the key of the command / of the lock record *)
+Lemma lock_step_wake_key s conn c s' ev w wk : lock_step s conn c = (s', ev, w) -> w = Some wk -> w_key wk = c_key c.
+Proof.
+  unfold lock_step. intros H Hw. cbv zeta in H.
+  repeat (split_hyp H); inv_tuple H; try discriminate.
+  all: repeat match goal with Hx : context [if ?c then _ else _] |- _ => destruct c end; try discriminate.
+  all: inv Hw; reflexivity.
+Qed.
+
